@@ -201,6 +201,19 @@ Check (C14_kad_gt_established :
 Check (C14_kad_is_table_history :
   forall local K h,
   k_table (kreach local K h) = reach local K (kflat local K (kad_empty (length local)) h)).
+Check (C14_displaced_only_for_room :
+  forall local K t o j n,
+  In n (nth j t []) ->
+  ~ key_in (n_key n) (nth j (fst (step local K t o)) []) ->
+  ilog2 (kxor local (op_key o)) = Some j /\ K <= length (nth j t []) /\ replaceable n = true /\
+  stores_op o = true /\ ~ key_in (op_key o) (nth j t []) /\
+  exists a c, nth j t [] = a ++ n :: c /\ Forall (fun x => replaceable x = false) a).
+Check (C14_full_bucket_rejects :
+  forall local K t o i,
+  ilog2 (kxor local (op_key o)) = Some i -> K <= length (nth i t []) ->
+  Forall (fun x => replaceable x = false) (nth i t []) -> ~ key_in (op_key o) (nth i t []) ->
+  fst (step local K t o) = t /\
+  (snd (snd (step local K t o)) = 3 \/ snd (snd (step local K t o)) = 4)).
 Check (C14_addr_refines_table :
   forall cap local K h,
   r_table (rrun cap local K (rempty (length local)) h) = reach local K (map abs_op h)).
